@@ -1,7 +1,6 @@
 package main
 
 import (
-	"time"
 	"fmt"
 	"go/types"
 	"os"
@@ -395,11 +394,11 @@ func propC17(a *Analysis, r *Registry) {
 					}
 				}
 				okForm := false
-				started := time.Now()
+				started := workUnits
 				for _, cd := range cands {
 					d, u := cd.d, cd.u
 					{
-						if okForm || time.Since(started) > 45*time.Second {
+						if okForm || workUnits-started > 40000000 {
 							break // (bounded: an unrecognised result is reported, not searched for indefinitely)
 						}
 						_, dn := fc.Recurrence(d)
